@@ -24,7 +24,7 @@ listed = claimed | {x["property_id"] for x in na}
 for l in open(os.path.join(root, "properties.jsonl")):
     pid = json.loads(l)["id"]
     if pid not in listed:
-        na.append({"property_id": pid, "reason": "no check registered yet: its harness is still under construction in this session (plan in DESIGN.md section 3); nothing is claimed for it"})
+        na.append({"property_id": pid, "reason": "no check is registered: the harness planned in DESIGN.md section 3 was not built (or, for C15, not finished) in the time available, so nothing is claimed for it"})
 manifest = {
     "version": 1,
     "setup_cmd": "cd gosym && GOFLAGS=-mod=mod GOPROXY=off GOTOOLCHAIN=local go1.26.8 build -o ../bin/gosym ./cmd/gosym",
@@ -39,7 +39,7 @@ manifest = {
                  "kind_free_text": "SSA symbolic executor for Go written for this task (go/ssa from /repo's working tree -> SMT-LIB2, z3 4.8.12 incremental; forking path exploration, bv and lia integer encodings, native replay of models via go test -overlay)"}],
     "checks": checks,
     "not_applicable": na,
-    "notes": "Every check is bounded symbolic execution of the real code; results are 'holds for every input within the stated bounds'. Exit 2 = inconclusive (never reported as success). Genuine defects: known_findings.jsonl.",
+    "notes": "Every check is bounded symbolic execution of the real code; results are 'holds for every input within the stated bounds'. Exit 2 = inconclusive (never reported as success): out-of-encoding, bound exceeded, solver unknown after a retry in a fresh process, vacuous harness, or a native witness replay that disagrees with the engine. Every run also replays solver-chosen inputs of completed engine paths natively against the real build (traces_validated_against_impl). Committed evidence files are the output of the quick commands with VERIF_SEED=1 on the unchanged tree. Genuine defects: known_findings.jsonl. History of corrections to the machinery: DESIGN.md section 8.",
 }
 json.dump(manifest, open(os.path.join(root, "MANIFEST.json"), "w"), indent=1)
 print("checks:", sorted(claimed)); print("not_applicable:", [x["property_id"] for x in na])
